@@ -64,6 +64,9 @@ class Gen:
         w = r.choice(WORDS)
         if r.random() < .3:
             w = ''.join(r.choice(string.ascii_letters + string.digits + ' .-_') for _ in range(r.randint(1, 9))).strip() or 'v'
+        if 'TRUNCATION' not in self.ec and '#' not in self.delims and r.random() < .12:
+            # '#' is ordinary text wherever no truncation character is declared — in a 2.7+ message with a four-character MSH-2 too (seed C01-j)
+            w = r.choice(['A#1', 'No. #4', '#', 'x#'])
         w = ''.join(c for c in w if c not in self.delims)
         if escapes and r.random() < .15:
             e = self.ec['ESCAPE']
